@@ -105,13 +105,24 @@ def wokenOf (s : State) (u : Nat) : Nat :=
 def Inv₂ (s : State) : Prop :=
   ∀ b ∈ s.blocks, b.queue ≠ [] → b.stack.length ≤ wokenOf s b.uid
 
-/-- the waiter bookkeeping: the queue of a block lists exactly its sleeping
-    waiters, `conn_waiters_num` counts everyone inside `try_acquire` -/
-structure InvW (s : State) : Prop where
-  ids : (s.waiters.map (·.id)).Nodup
-  queue : ∀ b ∈ s.blocks, b.queue.Perm
-    ((s.waiters.filter fun w => w.block == b.uid && w.st == .queued).map (·.id))
-  num : ∀ b ∈ s.blocks, b.waitersNum = ((s.waiters.filter fun w => w.block == b.uid).length : Int)
+/-- The waiter bookkeeping (C16 safety).  Stated for histories without
+    `prune_inactive_connections` / `prune_all_connections` (`noPrune`). -/
+structure InvQ (s : State) : Prop where
+  /-- waiting tasks have distinct identifiers -/
+  wids : (s.waiters.map (·.id)).Nodup
+  qnd : ∀ b ∈ s.blocks, b.queue.Nodup
+  /-- the queue of a block only lists sleeping waiters of that block -/
+  qmem : ∀ b ∈ s.blocks, ∀ r ∈ b.queue, ∃ w ∈ s.waiters, w.id = r ∧ w.block = b.uid ∧ w.st = .queued
+  /-- every sleeping waiter is in the queue of its block (a wake-up can reach it) -/
+  qall : ∀ w ∈ s.waiters, w.st = .queued → ∃ b ∈ s.blocks, b.uid = w.block ∧ w.id ∈ b.queue
+  /-- a block with somebody inside `try_acquire` exists -/
   known : ∀ w ∈ s.waiters, ∃ b ∈ s.blocks, b.uid = w.block
+  /-- `conn_waiters_num` counts exactly the tasks inside `try_acquire` -/
+  num : ∀ b ∈ s.blocks, b.waitersNum = ((s.waiters.filter fun w => w.block == b.uid).length : Int)
+  inv2 : Inv₂ s
+  noPrune : s.prunes = [] ∧ ∀ w ∈ s.waiters, w.prune = false
+  /-- a request is either waiting or holding, and holds at most once -/
+  hdis : ∀ w ∈ s.waiters, ∀ h ∈ s.holders, h.req ≠ w.id
+  hreq : (s.holders.map (·.req)).Nodup
 
 end EdbVerif.Pool
